@@ -30,6 +30,7 @@ type mapDriver struct {
 	// keys currently carrying the invalidation label "L" in the backend's own index
 	labelled map[string]bool
 	bulked   bool // a bulk population was written (at most one per case)
+	bulkKeys [][]byte
 	noNoise  bool // suppress per-operation context draws (sweeps over all keys)
 }
 
@@ -86,6 +87,7 @@ func (d *mapDriver) bulk(n int, sameShard bool, ttl time.Duration) {
 			break
 		}
 
+		d.bulkKeys = append(d.bulkKeys, key)
 		val := "bulk:" + string(key)
 		err := d.be.Write(ttlCtx(ttl), key, val)
 		d.c.Assert(err == nil, "write-error", "bulk Write(%s) returned %v", keyName(key), err)
@@ -115,6 +117,18 @@ func (d *mapDriver) bulk(n int, sameShard bool, ttl time.Duration) {
 
 	d.c.Tracef("bulk: %d keys written (same shard=%v, ttl=%v)", n, sameShard, ttl)
 	d.c.Class(fmt.Sprintf("bulk=%d", n))
+}
+
+// bulkDelete deletes the given share of the bulk population, key by key.
+func (d *mapDriver) bulkDelete(share float64) {
+	n := int(float64(len(d.bulkKeys)) * share)
+	for _, k := range d.bulkKeys[:n] {
+		d.del(k)
+	}
+
+	d.bulkKeys = d.bulkKeys[n:]
+	d.c.Tracef("bulk: %d keys of the population deleted one by one", n)
+	d.c.Class("bulk-then-mass-delete")
 }
 
 // churn writes and deletes one key r times (long histories leave the model where it was).
